@@ -4,6 +4,7 @@ import GwModel.Select
 import GwModel.Route
 import GwModel.InjectFile
 import GwModel.Http
+import GwModel.CacheRun
 import GwModel.Gen.Facts
 /-! gwdrv: one JSON object per line in, one per line out (DESIGN §2.2). Core + Lean.Data.Json only. -/
 open Lean Codec
@@ -48,6 +49,22 @@ def handle (j : Json) : Json :=
   match getStr j "op" with
   | "mono" => Json.mkObj [("data", encVal (Mono.mono (decCase j)))]
   | "merge" => runMerge j
+  | "cache" =>
+    -- plans are identified by the text they were planned from
+    let plannable : List (String × Bool) := match getObj? j "plannable" with | some o => (kvs o).map fun (k, v) => (k, v.getBool?.toOption.getD false) | none => []
+    let shaTbl : List (String × String) := match getObj? j "sha" with | some o => (kvs o).map fun (k, v) => (k, v.getStr?.toOption.getD "") | none => []
+    let planOf : String → Except String String := fun q => if (plannable.lookup q).getD false then .ok q else .error "unplannable"
+    let sha : String → String := fun q => (shaTbl.lookup q).getD ("sha:" ++ q)
+    let optStr (o : Json) (k : String) : Option String := match getObj? o k with | some (.str s) => some s | _ => none
+    let evs : List (PCache.Ev String) := (getArr j "events").map fun e =>
+      { at_ := getNat e "at", gcFirst := getBool e "gc", req := { query := optStr e "query", hash := optStr e "hash", phase := .start } }
+    let (rs, c) := PCache.runHistory planOf sha (getNat j "ttl") (Err := String) [] evs
+    Json.mkObj [("responses", .arr (rs.map fun r => match r with
+        | some (.plan p) => Json.mkObj [("kind", .str "plan"), ("text", .str p)]
+        | some (.planErr _) => Json.mkObj [("kind", .str "planErr")]
+        | some .notFound => Json.mkObj [("kind", .str "notFound")]
+        | none => Json.mkObj [("kind", .str "stuck")]).toArray),
+      ("cache", .arr (c.map fun e => Json.str e.hash).toArray)]
   | "inject" =>
     let ops := (getArr j "ops").map decJ
     let files := (getArr j "files").map fun f => (getNat f "n", strList f "paths")
